@@ -14,6 +14,7 @@ import (
 
 	"github.com/robertkrimen/otto"
 	"github.com/robertkrimen/otto/ast"
+	"github.com/robertkrimen/otto/file"
 	"github.com/robertkrimen/otto/parser"
 
 	"verif/harness/internal/c03"
@@ -25,6 +26,7 @@ type counters struct {
 	lines, agreeAccept, agreeReject, skip, dev int64
 	totalParses, truncations, junk, junkAccepted int64
 	sideEffectRuns, recorded, storeCommentsParses int64
+	fileSetParses, posChecked int64
 }
 
 type state struct {
@@ -42,7 +44,9 @@ type state struct {
 }
 
 // keep records one accepted tree for the judge (bounded).
-func (s *state) keep(src string, p *ast.Program) {
+func (s *state) keep(src string, p *ast.Program) { s.keepBase(src, p, 1) }
+
+func (s *state) keepBase(src string, p *ast.Program, base int) {
 	id := int(atomic.AddInt64(&s.nextID, 1))
 	s.mu.Lock()
 	full := len(s.recs) >= s.maxRecs
@@ -50,7 +54,7 @@ func (s *state) keep(src string, p *ast.Program) {
 	if full {
 		return
 	}
-	r := Record(id, src, p)
+	r := Record(id, src, p, base)
 	s.mu.Lock()
 	if len(s.recs) < s.maxRecs {
 		s.recs = append(s.recs, r)
@@ -123,7 +127,66 @@ func (s *state) total(src string, mode parser.Mode, what string) c03.Outcome {
 			}
 		}
 	}
+	if mode == 0 {
+		s.withFileSet(src, out, what)
+	}
 	return out
+}
+
+// the files that are already in the file set when the input is added to it
+var preFiles = []string{"var pre1 = 1;\n// the first file of the set\n", "/* second file */ function pre2(a, b) {\n  return a + b;\n}\n" + strings.Repeat("pre2(1, 2);\n", 12)}
+
+type errAt struct {
+	Line, Col int
+	Msg       string
+}
+
+func errList(o c03.Outcome) []errAt {
+	var r []errAt
+	if el, ok := o.Err.(*parser.ErrorList); ok {
+		for _, e := range *el {
+			r = append(r, errAt{e.Position.Line, e.Position.Column, e.Message})
+		}
+	}
+	return r
+}
+
+// withFileSet: the same input added to a file.FileSet that already holds one
+// or two other files (so its base is > 1) must be handled exactly as the
+// stand-alone input: no panic, same verdict, same errors at the same
+// line:column, and (judge) node spans inside [base, base+len].
+func (s *state) withFileSet(src string, alone c03.Outcome, what string) {
+	n := int(atomic.AddInt64(&s.n.fileSetParses, 1))
+	fs := &file.FileSet{}
+	nPre := 1 + n%2
+	for i := 0; i < nPre; i++ {
+		fs.AddFile(fmt.Sprintf("pre%d.js", i+1), preFiles[i])
+	}
+	out := c03.ParseFS(fs, src, 0)
+	rep := map[string]any{"src": src, "bytes": []byte(src), "files_before": nPre, "stand_alone": alone.C, "in_file_set": out.C, "msg": out.Msg}
+	if out.C == "panic" || out.C == "hang" {
+		s.c.Violate(fmt.Sprintf("totality: parser %s with a file set holding %d other file(s) (%s) on %q: %s", out.C, nPre, what, src, trunc(out.Msg, 200)), rep)
+		return
+	}
+	if out.C != alone.C {
+		s.c.Violate(fmt.Sprintf("verdict depends on the file set: stand-alone %s, with %d other file(s) %s, on %q", alone.C, nPre, out.C, src), rep)
+		return
+	}
+	if out.C == "reject" {
+		a, b := errList(alone), errList(out)
+		same := len(a) == len(b)
+		for i := 0; same && i < len(a); i++ {
+			same = a[i] == b[i]
+		}
+		if !same {
+			rep["errors_stand_alone"], rep["errors_in_file_set"] = fmt.Sprint(a), fmt.Sprint(b)
+			s.c.Violate(fmt.Sprintf("error positions depend on the file set (%d other file(s)) on %q: stand-alone %v, in the set %v", nPre, src, trunc(fmt.Sprint(a), 150), trunc(fmt.Sprint(b), 150)), rep)
+		}
+		return
+	}
+	if n%4 == 0 && len(src) < 2000 && out.Tree != nil && out.Tree.File != nil {
+		s.keepBase(src, out.Tree, out.Tree.File.Base())
+	}
 }
 
 const sideProbe = "H(1); zz = 1;\n"
@@ -198,6 +261,20 @@ func (s *state) handle(c *core.Ctx, l *c03.Line, src string, st *c03.Stats) erro
 	if out.C == "accept" {
 		s.keep(src, out.Tree)
 	}
+	if l.Pos != nil && out.C == "reject" {
+		// the specification says where the offending byte is (line terminators of 7.3, column in bytes)
+		atomic.AddInt64(&s.n.posChecked, 1)
+		found := false
+		for _, e := range errList(out) {
+			if e.Line == l.Pos.Line && e.Col == l.Pos.Col {
+				found = true
+			}
+		}
+		if !found {
+			c.Violate(fmt.Sprintf("[%s/%s] %q: no error is reported at %d:%d, the position of the ill-formed byte; errors: %v", l.Fam, l.Tag, src, l.Pos.Line, l.Pos.Col, trunc(fmt.Sprint(errList(out)), 200)),
+				map[string]any{"src": src, "bytes": []byte(src), "expected_line": l.Pos.Line, "expected_column": l.Pos.Col, "errors": fmt.Sprint(errList(out))})
+		}
+	}
 	if os.Getenv("C04_MUTANT") == "flip" && strings.Contains(src, "while") && out.C == "reject" {
 		out.C = "accept" // seeded adapter fault (binding demonstration): must be reported
 	}
@@ -268,7 +345,7 @@ func Check(c *core.Ctx) (map[string]any, []string, error) {
 		nsel, nJunk, s.maxRecs, s.truncMod = 0, 4000000, 160000, 8
 	}
 	s.vms.New = func() any { return newBox() }
-	fams := []string{"mut", "early"}
+	fams := []string{"mut", "early", "after", "utf8"}
 	if f := os.Getenv("C04_FAMS"); f != "" {
 		fams = strings.Split(f, ",")
 	}
@@ -297,7 +374,7 @@ func Check(c *core.Ctx) (map[string]any, []string, error) {
 		"tlc_runs": append(tlcStats, map[string]any{"config": "C04Judge", "distinct": jres.states, "judged_trees": jres.judged, "wall_s": jres.wall}),
 		"generated_lines": nLines, "evaluations": s.n.totalParses, "distinct_nontrivial": s.nDistinct, "accept_agreed": s.n.agreeAccept, "reject_agreed": s.n.agreeReject, "outside_es5_skipped": s.n.skip,
 		"known_deviation_class": s.n.dev, "parser_calls_total": s.n.totalParses, "truncations": s.n.truncations, "store_comments_parses": s.n.storeCommentsParses,
-		"junk_inputs": s.n.junk, "junk_accepted": s.n.junkAccepted, "rejected_sources_run_for_side_effects": s.n.sideEffectRuns,
+		"file_set_parses": s.n.fileSetParses, "error_positions_compared_with_spec": s.n.posChecked, "junk_inputs": s.n.junk, "junk_accepted": s.n.junkAccepted, "rejected_sources_run_for_side_effects": s.n.sideEffectRuns,
 		"trees_judged_wellformed": jres.judged, "trees_failing_only_by_known_deviation": jres.dev, "trees_bad": jres.bad,
 		"judge_selftest": jres.self,
 		"rule": "evaluations = parser calls under recover + watchdog; distinct_nontrivial = distinct source texts whose accept/reject classification by Grammar!Classify was compared with the parser; a generated line is one token-level mutant (or early-error seed) with its classification by Grammar!Classify; every parser call is under recover and a 20 s watchdog; accepted trees are logged (nodes with Idx0/Idx1/parent, ast.Walk events) and judged by spec/C04Judge.tla",
@@ -510,5 +587,5 @@ func parseForSelfTest() (TreeRec, bool) {
 	if o.C != "accept" {
 		return TreeRec{}, false
 	}
-	return Record(0, src, o.Tree), true
+	return Record(0, src, o.Tree, 1), true
 }
